@@ -245,7 +245,7 @@ def tree(shape, cond=None, max_depth=3, max_nodes=8, numinv=True, big=True, inv=
                 ccond, cax = cond, None
                 if cond is not None and force_cond:
                     axes = [a for a in range(len(cond)) if cond[a] == n]
-                    if axes and draw(st.booleans()):
+                    if axes and draw(st.integers(0, 3)) > 0:
                         a = draw(st.sampled_from(axes))
                         ccond = tuple(d for i, d in enumerate(cond) if i != a)
                         cax = a - len(cond) if draw(st.booleans()) else a
@@ -336,6 +336,7 @@ def flow_spec(draw, max_dim=3, factories=None):
         s["block_dim"] = draw(st.integers(1, 3))
     elif f == "planar_flow":
         s["negative_slope"] = draw(st.sampled_from([0.1, 0.5, 1.0, None]))
+        s["pscale"] = draw(st.sampled_from([0.0, 0.3, 1.0, 2.0, 2.0]))  # init is 0.01*N(0,1): constraints only bite far from it
     elif f == "triangular_spline_flow":
         s["knots"] = draw(st.integers(1, 6))
         s["tanh_max_val"] = draw(st.sampled_from([1.0, 3.0]))
